@@ -35,5 +35,15 @@ theorem exT_fuel : FuelOK exT 6 := by
 theorem exT_aliasOK : AliasOK exT :=
   addAliases_aliasOK (by intro o n h; cases h) _
 
+theorem exT_ids : exT.ids = [1, 2, 3, 4, 5] := rfl
+
+/-- the keys of the `nodes` map are exactly the nodes -/
+theorem exT_ids_nodes : ∀ x, x ∈ exT.ids ↔ (exT.node x).isSome := by
+  intro x
+  rw [exT_node, exT_ids]
+  unfold exNode
+  split <;> simp
+  rename_i h1 h2 h3 h4 h5
+  exact ⟨h1, h2, h3, h4, h5⟩
 
 end ObiVerif.Tax
